@@ -5,6 +5,14 @@ pid = sys.argv[1]
 wt = sys.argv[2] if len(sys.argv) > 2 else pid
 wave2 = len(sys.argv) > 3
 wave3 = len(sys.argv) > 3 and sys.argv[3] == 'w3'
+wave4 = len(sys.argv) > 3 and sys.argv[3] == 'w4'
+extra = ""
+if wave2:
+    extra += " Neither change may be a simply dropped or inverted check at the obvious entry point: at least one must rely on state carried across a multi-step sequence or on two cooperating sites that each look fine alone, and (where the property involves several connections, goroutines, crashes or faults) at least one must need a particular interleaving, crash point or fault to manifest."
+if wave3 or wave4:
+    extra += " Additionally, neither change may sit in the request's entry handler itself: put it in code at least one call away (shared helpers, encoders/decoders, stores, path or name handling, the connection/transfer loops, start-up/loading code), or in how two requests or two connections interact; pick sites and failure modes that a reviewer focused on the handler would not look at, and make the two changes as different from each other as you can (different files, different mechanisms)."
+if wave4:
+    extra += " Prefer changes whose effect depends on state left behind by a DIFFERENT session or an earlier request (pending transfers, stale table entries, leftover files, cached values), on integer fields sent in their shorter or longer legal encodings (Hotline integers may be 2 or 4 bytes), on values at the limits of their range (0, 1, 255/256, 65535/65536, 2^31, 2^32-1), on names at the limits of their length or containing non-ASCII bytes, or on the relative order of two operations by different users."
 p = next(json.loads(l) for l in open('/verif/properties.jsonl') if json.loads(l)['id'] == pid)
 print(f"""You are working in a scratch git worktree of the Go project jhalter/mobius (a Hotline protocol server) at /tmp/mut/{wt}. Work ONLY inside /tmp/mut/{wt}. Never touch or read /repo or /verif.
 
@@ -18,7 +26,7 @@ Code anchors (starting points, read whatever you need): {', '.join(p['anchors'][
 TASK: produce TWO independent, realistic source changes (two separate patches, m1 and m2, each applying to a clean HEAD on its own) to the NON-test Go code that each BREAK this property, while
  (a) `go build ./...` and `go build -tags verif ./...` still succeed, and
  (b) the existing test suite still passes unedited: `go test -vet=off -count=1 ./...`.
-Each change must look like a plausible bug a developer could introduce (refactoring slip, off-by-one, a check dropped on one branch, wrong constant or wrong variable, lock released too early, reordered steps, stale cache, missing error propagation) - NOT sabotage such as emptying a function. Prefer changes that need something specific to manifest - a particular interleaving, a crash or fault at a particular point, a multi-step sequence of operations, an unusual input or boundary value, or two cooperating sites that each look fine alone - rather than ones that ordinary use would expose at once. The two changes should break different aspects/code paths of the property." + (" Neither change may be a simply dropped or inverted check at the obvious entry point: at least one must rely on state carried across a multi-step sequence or on two cooperating sites that each look fine alone, and (where the property involves several connections, goroutines, crashes or faults) at least one must need a particular interleaving, crash point or fault to manifest." if wave2 else "") + (" Additionally, neither change may sit in the request's entry handler itself: put it in code at least one call away (shared helpers, encoders/decoders, stores, path or name handling, the connection/transfer loops, start-up/loading code), or in how two requests or two connections interact; pick sites and failure modes that a reviewer focused on the handler would not look at, and make the two changes as different from each other as you can (different files, different mechanisms)." if wave3 else "") + " Do not modify files under internal/verifhook/, verifshim/ or hotline/verif_export.go, and keep the verifhook.Event(...) lines in hotline/server.go.
+Each change must look like a plausible bug a developer could introduce (refactoring slip, off-by-one, a check dropped on one branch, wrong constant or wrong variable, lock released too early, reordered steps, stale cache, missing error propagation) - NOT sabotage such as emptying a function. Prefer changes that need something specific to manifest - a particular interleaving, a crash or fault at a particular point, a multi-step sequence of operations, an unusual input or boundary value, or two cooperating sites that each look fine alone - rather than ones that ordinary use would expose at once. The two changes should break different aspects/code paths of the property.{extra} Do not modify files under internal/verifhook/, verifshim/ or hotline/verif_export.go, and keep the verifhook.Event(...) lines in hotline/server.go.
 
 For each change also write a DEMONSTRATION: a Go test file (or small program) that FAILS with the change applied and PASSES on the unchanged code. Verify this yourself: apply the change, run the demo (must fail), run the whole existing suite (must pass), revert the change, run the demo again (must pass).
 Note: running the test suite rewrites internal/mobius/test/config/Users/guest.yaml and creates test-user.yaml; restore with `git checkout -- . && git clean -fdq internal hotline` (do not delete out/).
